@@ -1460,6 +1460,36 @@ func cfgValidScalars(cfg *ResponseConfig) bool {
 //@   callsite Sprintf requires remainingInMs: arg0 == "%dms too early" ==> nvarargs == 1 && vararg0.(int) == cfg.StartTimeS*1000 - nowMS
 //@   exit 7 requires handedOnOnlyFromStart: errHT == nil && cfg != nil && nowMS >= cfg.StartTimeS*1000 && cfgValidScalars(cfg)
 
+// The other endpoints (C08): hostile values are answered, not crashed on.
+// queryFromAnnexI: every item must be exactly key=value before its parts are used.
+//@ func queryFromAnnexI
+//@   loop 1 invariant 0 <= rangeidx && rangeidx <= len(pairs)
+//@   allocates
+//@   noframe
+
+// createURL reports unusable numbers in the page; it never panics (a panic statement would be a failed obligation).
+//@ func createURL
+//@   wiring
+//@   keep panic
+
+// urlGenHandlerFunc: the first entry of the MPD / DRM list is only marked when the list is not empty.
+//@ func (*Server).urlGenHandlerFunc
+//@   wiring
+//@   keep index: data.MPDs[0]; data.DRMs[0]
+
+// NewCmafIngester: the internal MPD request is built with the error-returning constructor (the test
+// helper httptest.NewRequest panics on a malformed target), and a failed one ends the creation.
+//@ func (*cmafIngesterMgr).NewCmafIngester
+//@   wiring
+//@   callsite net/http.NewRequest requires internalMPDRequest: arg1 == req.URL
+//@   callsite cfgFromRequest requires requestWasBuilt: arg0 == mpdReq
+
+// patchHandlerFunc: a patch is only computed from two MPDs that were actually generated.
+//@ func (*Server).patchHandlerFunc
+//@   wiring
+//@   exit 2 requires missingPublishTimeRefused: publishTime == ""
+//@   callsite MPDDiff requires bothMPDsGenerated: old.status < 400 && new.status < 400
+
 // ---------------------------------------------------------------------------
 // C07: responses are a function of (URL, time): shared state is read-only while serving,
 // and the CMAF-ingester manager tables are (not) synchronised.
